@@ -130,6 +130,12 @@ for cfg, prog in facts.load_many(list(_beliefs.CONFIGS)).items():
     refb[cfg] = {fk: dict(c) for fk, c in pop.items()}
 json.dump(refb, open(os.path.join(os.path.dirname(os.path.abspath(__file__)), "sa", "ref_beliefs.json"), "w"), indent=0, sort_keys=True)
 print({c: sum(sum(v.values()) for v in refb[c].values()) for c in refb}, "belief sites")
+refa = {}
+for cfg, prog in facts.load_many(list(facts.CONFIGS)).items():
+    pop = _beliefs.population(prog, None, "live")
+    refa[cfg] = {fk: dict(c) for fk, c in pop.items()}
+json.dump(refa, open(os.path.join(os.path.dirname(os.path.abspath(__file__)), "sa", "ref_asserts.json"), "w"), indent=0, sort_keys=True)
+print({c: sum(sum(v.values()) for v in refa[c].values()) for c in refa}, "run-time panic condition sites")
 
 # functions that some property's check reads with a rule of its own (not only through the generic normal-form rules)
 import subprocess, tempfile, glob as _glob
